@@ -127,6 +127,10 @@ func genInv(r *prng.R, i int) cliInv {
 		base = fmt.Sprintf("%s%d", base, m)
 		mb.Mode = os.FileMode(r.Pick(0o644, 0o600, 0o640, 0o666, 0o755, 0o444))
 		mb.Plain = gen.Data(r, []string{"text", "random", "lowent", "zeros", "empty"}[r.Intn(5)], r.Pick(0, 1, 10, 500, 5000, 40000))
+		if r.Chance(1, 10) {
+			// compressible, then more than a chunk of incompressible bytes, then compressible again
+			mb.Plain = gen.Data(r, []string{"sandwich", "sandwich2", "altseg"}[r.Intn(3)], r.Pick(200000, 290000))
+		}
 		if !inv.Decomp {
 			mb.Kind = "plain"
 			mb.Name = base
